@@ -1397,6 +1397,38 @@ def _hoist_test_calls(fn: ast.AST, helpers, cls, counter: List[int]) -> int:
     return n
 
 
+class _FoldConst(ast.NodeTransformer):
+    """what substituting literal arguments into a helper body leaves behind:
+    getattr(x, "name") -> x.name; f"{'lit'}..." -> f"lit..."."""
+
+    def visit_Call(self, node: ast.Call) -> ast.AST:
+        self.generic_visit(node)
+        if isinstance(node.func, ast.Name) and node.func.id == "getattr" and len(
+                node.args) == 2 and not node.keywords and isinstance(
+                    node.args[1], ast.Constant) and isinstance(node.args[1].value, str) and \
+                node.args[1].value.isidentifier():
+            return ast.copy_location(ast.Attribute(value=node.args[0], attr=node.args[1].value,
+                                                   ctx=ast.Load()), node)
+        return node
+
+    def visit_JoinedStr(self, node: ast.JoinedStr) -> ast.AST:
+        self.generic_visit(node)
+        vals: List[ast.AST] = []
+        for v in node.values:
+            if isinstance(v, ast.FormattedValue) and isinstance(v.value, ast.Constant) and \
+                    isinstance(v.value.value, str) and v.conversion == -1 and \
+                    v.format_spec is None:
+                v = ast.Constant(value=v.value.value)
+            if isinstance(v, ast.Constant) and vals and isinstance(vals[-1], ast.Constant):
+                vals[-1] = ast.Constant(value=vals[-1].value + v.value)
+            else:
+                vals.append(v)
+        if len(vals) == 1 and isinstance(vals[0], ast.Constant):
+            return ast.copy_location(vals[0], node)
+        node.values = vals
+        return node
+
+
 # helpers that are called more than once in the function being rewritten: every instance gets
 # fresh names (one instance keeping the helper's names and the other not would break the
 # alignment with the reference names)
@@ -1451,7 +1483,10 @@ def _instantiate(h: "_Helper", env: Dict[str, ast.AST], caller_names: Set[str],
                                    node.id not in env):
                 return ast.copy_location(ast.Name(id=ren[node.id], ctx=node.ctx), node)
             return node
+    lit = any(isinstance(v, ast.Constant) for v in env.values())
     body = [_SubstNames(env).visit(_Ren().visit(s_)) for s_ in body]
+    if lit:
+        body = [_FoldConst().visit(s_) for s_ in body]
     return pre, body
 
 
@@ -1835,7 +1870,10 @@ def _inline_proc_calls(fn: ast.AST, helpers, cls, counter: List[int]) -> int:
                     if node.id in ren and node.id not in env:
                         return ast.copy_location(ast.Name(id=ren[node.id], ctx=node.ctx), node)
                     return node
+            lit_ = any(isinstance(v, ast.Constant) for v in env.values())
             body = [_SubstNames(env).visit(_Ren().visit(s_)) for s_ in body]
+            if lit_:
+                body = [_FoldConst().visit(s_) for s_ in body]
             ret = None
             if h.structured is not None:
                 if how == "assign":
@@ -2018,8 +2056,8 @@ def inline_helpers(tree: ast.Module, modname: str, ref_functions: Set[str]) -> i
         nonlocal n
         hs = dict(helpers)
         hs.update(local)
-        # nested helpers of this function
-        for st in list(fn.body):  # type: ignore[attr-defined]
+        # nested helpers of this function (also those defined inside a with / if / try block)
+        for st in [s_ for b_ in _blocks(fn) for s_ in b_]:
             if isinstance(st, ast.FunctionDef):
                 key = None
                 for k, f2 in _fkeys.items():
@@ -2031,7 +2069,7 @@ def inline_helpers(tree: ast.Module, modname: str, ref_functions: Set[str]) -> i
             return
         for _round in range(4):
             # closures that came in with an inlined helper
-            for st in list(fn.body):  # type: ignore[attr-defined]
+            for st in [s_ for b_ in _blocks(fn) for s_ in b_]:
                 if isinstance(st, ast.FunctionDef) and ("", st.name) not in hs and not any(
                         f2 is st for f2 in _fkeys.values()):
                     hs[("", st.name)] = _Helper(st, "nested", None)
@@ -2050,9 +2088,10 @@ def inline_helpers(tree: ast.Module, modname: str, ref_functions: Set[str]) -> i
         # drop nested helper definitions that are no longer referenced
         used = {x.id for x in _walk_scope(fn) if isinstance(x, ast.Name) and
                 isinstance(x.ctx, ast.Load)}
-        fn.body = [s_ for s_ in fn.body if not (  # type: ignore[attr-defined]
-            isinstance(s_, ast.FunctionDef) and ("", s_.name) in hs and
-            hs[("", s_.name)].kind == "nested" and s_.name not in used)] or [ast.Pass()]
+        for b_ in list(_blocks(fn)):
+            b_[:] = [s_ for s_ in b_ if not (
+                isinstance(s_, ast.FunctionDef) and ("", s_.name) in hs and
+                hs[("", s_.name)].kind == "nested" and s_.name not in used)] or [ast.Pass()]
 
     from .localnames import function_keys
     _fkeys = dict(function_keys(tree, modname))
